@@ -106,6 +106,12 @@ def make_case(rng, base, idx, big):
     ncons = rng.choice([0, 1, 2])
     cons = RC.gen_constraints(rng, ncons)
     defs = RC.gen_defs(rng, ncons)
+    if ncons and rng.random() < 0.3:
+        # EVERY search carries its own constraint: lines before the first
+        # passing one are read (and must decode) although nothing searches
+        # them
+        for d_ in defs:
+            d_['constraints'] = [rng.randrange(ncons)]
     use_global = ncons > 0 and rng.random() < 0.7
     d = os.path.join(base, f"c{idx}")
     nfiles = 1 if rng.random() < 0.8 else 2
